@@ -179,11 +179,14 @@ func (s *Syncer[H]) localHead(ctx context.Context) (H, error) {
 	// pending head is the latest known subjective head and a sync target
 	// if it is empty, no sync is in progress
 	pendHead := s.pending.Head()
-	if !pendHead.IsZero() {
-		return pendHead, nil
-	}
 	// if pending is empty - get the latest stored/synced head
 	head, err := s.store.Head(ctx)
+	if !pendHead.IsZero() && (err != nil || pendHead.Height() >= head.Height()) {
+		return pendHead, nil
+	}
+	// NOTE: the stored head can also be ahead of a non-empty pending: the sync loop drops a range
+	// from pending only after it stored it, and meanwhile a newer adjacent head may have been
+	// appended to the store directly. The stale pending head must not shadow it then.
 	if err != nil {
 		return head, fmt.Errorf("local store head: %w", err)
 	}
